@@ -43,7 +43,7 @@ def make(rng, variant):
     over["stub_mode"] = str(rng.choice(["random", "adversarial", "adversarial", "needle", "needle", "stubborn", "identical"]))
     case, order = runs.make_case(rng, variant, **over)
     if variant == "Auer-emp":
-        case["hetero"] = (np.sqrt(case["noise_var"]) * 10 ** rng.uniform(-0.5, 0.5, size=case["K"])).tolist()
+        case["hetero"] = (np.sqrt(case["noise_var"]) * 10 ** rng.uniform(-0.5, 0.5, size=(case["K"], case["m"]))).tolist()  # per (design, objective)
     case["max_rounds"] = 150
     return case, order
 
